@@ -42,7 +42,9 @@ def _spox():
 def _types():
     from spox import Tensor
 
-    return {F: Tensor(np.float32, ()), B: Tensor(np.bool_, ()), I: Tensor(np.int64, ())}
+    # one-element vectors: what `loop` gives its body (iteration number, condition) and hence what a
+    # Loop's `cond` input must look like
+    return {F: Tensor(np.float32, (1,)), B: Tensor(np.bool_, (1,)), I: Tensor(np.int64, (1,))}
 
 
 # --------------------------------------------------------------------------- AP helpers
@@ -197,9 +199,11 @@ def realise_lowlevel(ap: dict, name_vars: bool = True) -> Real:
             if k == "arg":
                 vs = [spox.argument(ty[nd["ty"]])]
             elif k == "const":
-                vs = [op.const(np.float32(nid))]
+                vs = [op.const(np.array([nid], np.float32))]
             elif k == "init":
-                vs = [_graph.initializer(np.array(nid, np.float32))]
+                vs = [_graph.initializer(np.array([nid], np.float32))]
+            elif k == "consti":
+                vs = [op.const(np.int64(nd["val"]))]
             elif k == "neg":
                 vs = [op.neg(ins[0])]
             elif k == "add":
@@ -225,7 +229,11 @@ def realise_lowlevel(ap: dict, name_vars: bool = True) -> Real:
                 vs = list(
                     op._Loop(
                         op._Loop.Attributes(body=AttrGraph(gb, name="body")),
-                        op._Loop.Inputs(M=None, cond=None, v_initial=ins),
+                        op._Loop.Inputs(
+                            M=ins[0] if nd.get("m") else None,
+                            cond=ins[int(bool(nd.get("m")))] if nd.get("c") else None,
+                            v_initial=ins[int(bool(nd.get("m"))) + int(bool(nd.get("c"))):],
+                        ),
                         out_variadic=len(gb.requested_results) - 1,
                     ).outputs.v_final_and_scan_outputs
                 )
@@ -281,12 +289,14 @@ def realise_script(script: dict, name_vars: bool = True) -> Real:
     def run_block(block):
         for st in block:
             if st[0] == "val":
-                _, kind, refs = st
+                kind, refs = st[1], st[2]
                 ins = [box[r] for r in refs]
                 if kind == "const":
-                    v, t = op.const(np.float32(len(box))), F
+                    v, t = op.const(np.array([len(box)], np.float32)), F
                 elif kind == "init":
-                    v, t = _graph.initializer(np.array(len(box), np.float32)), F
+                    v, t = _graph.initializer(np.array([len(box)], np.float32)), F
+                elif kind == "consti":
+                    v, t = op.const(np.int64(st[3])), I
                 elif kind == "neg":
                     v, t = op.neg(ins[0]), F
                 elif kind == "add":
@@ -297,7 +307,9 @@ def realise_script(script: dict, name_vars: bool = True) -> Real:
                     v, t = op.less(ins[0], ins[1]), B
                 else:
                     raise ScriptError(kind)
-                reg(v._op, kind, t, refs, [])
+                nid_ = reg(v._op, kind, t, refs, [])
+                if kind == "consti":
+                    ap["nodes"][nid_]["val"] = st[3]
             elif st[0] == "if":
                 _, cref, eblock, eres, tblock, tres = st
 
@@ -315,7 +327,9 @@ def realise_script(script: dict, name_vars: bool = True) -> Real:
                 s1 = reg_graph(gt, [], tres)
                 reg(node, "if", F, [cref], [s0, s1])
             elif st[0] == "loop":
-                _, init, nargs, bblock, bres = st
+                init, nargs, bblock, bres = st[1], st[2], st[3], st[4]
+                mc = st[5] if len(st) > 5 else {}
+                mref, cref = mc.get("m"), mc.get("c")
                 arg_ids: list[int] = []
 
                 def body(*args):
@@ -326,10 +340,18 @@ def realise_script(script: dict, name_vars: bool = True) -> Real:
                     run_block(bblock)
                     return [box[r] for r in bres]
 
-                outs = op.loop(v_initial=[box[r] for r in init], body=body)
+                outs = op.loop(
+                    box[mref] if mref is not None else None,
+                    box[cref] if cref is not None else None,
+                    v_initial=[box[r] for r in init],
+                    body=body,
+                )
                 node = outs[0]._op
                 s0 = reg_graph(node.attrs.body.value, arg_ids, bres)
-                reg(node, "loop", F, init, [s0])
+                lid = reg(node, "loop", F,
+                          ([mref] if mref is not None else []) + ([cref] if cref is not None else []) + list(init), [s0])
+                ap["nodes"][lid]["m"] = mref is not None
+                ap["nodes"][lid]["c"] = cref is not None
             else:
                 raise ScriptError(st[0])
 
